@@ -17,7 +17,15 @@ META = dict(technique='Coq proof (call-log invariant for every algorithm program
             level_note='Trusted: Coq kernel+VM; harness (generators, instrumentation of /repo from outside, printers, oracles). User cost/constraints/penalty, DE trial vectors, Nelder-Mead candidate points, argsort permutation and post-decoration populations are oracle inputs (recorded in the correspondence, universally quantified in theorems). Powell: line-search probes and the returned index are oracle inputs. Tight / clip=True range modes: the composite constraints.and_(constraints, bounds) is a recorded table. Not in the machine model (oracle only): ensembles, clip=False ranges. No NaN energies.',
             design_ref="5/C02")
 
-_generate = SC.make_generate(**dict(allow_modes=True, push_out=0.3))
+_generate0 = SC.make_generate(**dict(allow_modes=True, push_out=0.3))
+
+
+def _generate(rng, n, tier):
+    from harness import solvergen as G
+    for c in _generate0(rng, n, tier):
+        yield G.gen_edge_start(rng) if rng.random() < 0.05 else c
+
+
 generate, run_impl, oracle = SC.with_extras(_generate, SC.run_impl, SC.oracle_c02, {"ensbox": (0.08, SC.gen_ensbox, SC.run_ensbox, SC.oracle_ensbox)})
 coq_preamble = SC.coq_preamble
 coq_terms = SC.make_coq_terms('(mk_mask true false false false false false true false)')
